@@ -9,5 +9,6 @@ CONSTANTS
   ParamSeq <- NoVals
   DeclSeq <- DeclsFull
   MaxParams = 0
+  MinSize = 0
   Bug = "none"
 CHECK_DEADLOCK FALSE
